@@ -23,7 +23,7 @@ class P:
         return ("seq", line)
 
     def tie_obligations(self):
-        return 1     # Gen/Locks.v regenerated and re-checked by vm_compute
+        return 2     # Gen/Locks.v (function skeletons, shard struct fields) regenerated and re-checked
 
     def extra(self, tier, rng, known):
         dur = "3s" if tier == "quick" else "60s"
@@ -56,7 +56,11 @@ class P:
         return ("the obligation is the kernel check of all 8 regenerated function skeletons at all 32 shards (256 operations, exhaustive). "
                 "Tie: a -race build runs N IPFIX + N v9 decoder goroutines over overlapping/disjoint exporter/id keys (announcements drawn "
                 "from a fixed family of definitions so completeness is checkable), concurrent Dump + reload of every dump, and IRPC.Get; "
-                "observed: race reports, fatal errors, and that every lookup / reloaded template is one complete announced definition for its key")
+                "observed: race reports, fatal errors, and that every lookup / reloaded template is one complete announced definition for its key. "
+                "Every method of the cache types that locks a shard or touches a shard map is held to the protocol (functions added later too; "
+                "delete() is a write), and the shard struct must consist of the map and the mutex only.  Freshness: 2 owners per protocol are the "
+                "only announcers of 24 keys each (several per shard), announce version n and look it up at once (must be n) while 6 readers "
+                "alternate over the same keys (what a reader gets for a key never goes back to an older version)")
 
     def trusted_base(self):
         return ["Coq 8.16.1 kernel incl. vm_compute (finite check of 256 operation instances)",
